@@ -48,6 +48,27 @@ def map_prog(c):
     return "\n".join(lines) + "\n", want
 
 
+def jmap_prog(c):
+    """the same operation sequences on a Map String Int, observed through the JSON codec (object text, round trip)"""
+    KEY = {1: "a", 2: "b", 3: "c"}
+    lines = ["let map = import! std.map", "let { Serialize, ? } = import! std.json.ser", "let ser = import! std.json.ser",
+             "let { Deserialize, ? } = import! std.json.de", "let de = import! std.json.de", "let { Result } = import! std.result",
+             "let m0 : map.Map String Int = map.empty"]
+    k = 0
+    for o in c["ops"]:
+        if o["op"] == "insert":
+            lines.append("let m%d = map.insert \"%s\" %d m%d" % (k + 1, KEY[o["k"]], o["v"], k))
+            k += 1
+    lines += ["let text =", "    match ser.to_string m%d with" % k, "    | Ok s -> s", "    | Err e -> e",
+              "let back : Result String (map.Map String Int) = de.deserialize text",
+              "let again =", "    match back with", "    | Ok w -> map.to_list w", "    | Err _ -> map.to_list m0",
+              "{ text, again }"]
+    final = c["r"]["list"]
+    text = "{" + ",".join("\"%s\":%d" % (KEY[a], b) for a, b in final) + "}"
+    want = "{0|%s,%s}" % (json.dumps(text), lst(["{0|\"%s\",%d}" % (KEY[a], b) for a, b in final]))
+    return "\n".join(lines) + "\n", want
+
+
 def seq_prog(c):
     xs = c["xs"]
     src = ("let list @ { List, ? } = import! std.list\nlet array = import! std.array\nlet { foldl } = import! std.foldable\n"
@@ -107,8 +128,8 @@ def json_progs(rnd, n):
     for _ in range(n):
         x, y, z = rnd.randrange(-5, 100), rnd.choice(["", "a", "é€", "q\\\"uote"]), rnd.randrange(3)
         src = ("let { Serialize, ? } = import! std.json.ser\nlet ser = import! std.json.ser\nlet { Deserialize, ? } = import! std.json.de\nlet de = import! std.json.de\n"
-               "let { Result } = import! std.result\n#[derive(Eq, Show, Serialize, Deserialize)]\ntype R = { x : Int, y : String, z : Array Int }\n"
-               "let boolcode b = if b then 1 else 0\nlet v : R = { x = %d, y = \"%s\", z = %s }\n"
+               "let { Result } = import! std.result\n#[derive(Eq, Show, Serialize, Deserialize)]\ntype R = { name : Int, age : String, zs : Array Int, b : Int }\n"
+               "let boolcode b = if b then 1 else 0\nlet v : R = { name = %d, age = \"%s\", zs = %s, b = 7 }\n"
                "let text =\n    match ser.to_string v with\n    | Ok s -> s\n    | Err e -> e\n"
                "let back : Result String R = de.deserialize text\n"
                "match back with\n| Ok w -> boolcode (w == v)\n| Err _ -> 2\n") % (x, y, arr_lit(list(range(z))))
@@ -132,6 +153,14 @@ def run(tier):
         for c in cs:
             src, want = fn(c)
             progs.append((src, want, part))
+        if part == "map":
+            seen_final = set()
+            for c in cs:
+                ins = tuple((o["k"], o["v"]) for o in c["ops"] if o["op"] == "insert")
+                if ins and ins not in seen_final:
+                    seen_final.add(ins)
+                    src, want = jmap_prog(c)
+                    progs.append((src, want, "jsonmap"))
     progs += derive_progs(rnd, 60 if tier == "quick" else 2000)
     progs += json_progs(rnd, 25 if tier == "quick" else 500)
     vlib.log("[C19] %d cases" % len(progs))
